@@ -33,10 +33,10 @@ theorem validate_on_or_after_refines (now : Int) (tm : String → Int) (skew : N
       by_cases hgt : now > tm s + (skew : Int)
       · have : Sp.onOrAfterOk now skew (tm s) = false := by simp [Sp.onOrAfterOk, hgt]
         simp [this, run, validate_on_or_after, defaultFuel, evalBlock, evalStmt, evalExpr, evalArgs, lookup, setVar,
-          truthy, hs', timeExt, cmpVals, hgt]
+          truthy, hs', timeExt, cmpVals, builtin, hgt]
       · have : Sp.onOrAfterOk now skew (tm s) = true := by simp [Sp.onOrAfterOk, hgt]
         simp [this, run, validate_on_or_after, defaultFuel, evalBlock, evalStmt, evalExpr, evalArgs, lookup, setVar,
-          truthy, hs', timeExt, cmpVals, hgt]
+          truthy, hs', timeExt, cmpVals, builtin, hgt]
 
 /-- `validate_before(not_before, slack)`: raises `ToEarly` exactly when the model's `beforeOk` is false, else `True`. -/
 theorem validate_before_refines (now : Int) (tm : String → Int) (skew : Nat) (t : Option String) :
@@ -55,10 +55,10 @@ theorem validate_before_refines (now : Int) (tm : String → Int) (skew : Nat) (
       by_cases hgt : tm s > now + (skew : Int)
       · have : Sp.beforeOk now skew (tm s) = false := by simp [Sp.beforeOk, hgt]
         simp [this, run, validate_before, defaultFuel, evalBlock, evalStmt, evalExpr, evalArgs, lookup, setVar,
-          truthy, hs', timeExt, cmpVals, hgt]
+          truthy, hs', timeExt, cmpVals, builtin, hgt]
       · have : Sp.beforeOk now skew (tm s) = true := by simp [Sp.beforeOk, hgt]
         simp [this, run, validate_before, defaultFuel, evalBlock, evalStmt, evalExpr, evalArgs, lookup, setVar,
-          truthy, hs', timeExt, cmpVals, hgt]
+          truthy, hs', timeExt, cmpVals, builtin, hgt]
 
 /-! Non-vacuity: the theorems are about terms that really compute (evaluated by the kernel). -/
 example : run Sp.pyStrip (timeExt 100 (fun _ => 40)) validate_on_or_after [.str "t", .int 59] = .raised "ResponseLifetimeExceed" := by
